@@ -10,8 +10,8 @@ NOTE_T3 = ('T3 (bounded): real functions imported from /repo, independent dense 
            'evidence; assumes repeatable BLAS (A-BLAS) and pure callbacks (A-CB).')
 
 P('C01', 'other',
-  ['props.shape', 'props.ranks', 'act_one.copy.tt', 'act_one.copy.scalar', 'act_one.get', 'act_two.add.tt_tt',
-   'act_two.mul.num', 'act_two.sub', 'act_two.outer', 'act_one.mean', 'act_one.sum'], 60,
+  ['props.shape', 'props.ranks', 'props.erank', 'act_one.copy.tt', 'act_one.copy.scalar', 'act_one.get', 'act_two.add.tt_tt',
+   'act_two.mul.num_tt', 'act_two.mul.tt_num', 'act_two.sub.tt_tt', 'act_two.outer', 'tensors.const.plain', 'act_one.mean', 'act_one.sum'], 60,
   ['L-SUMPROD (sum over all multi-indices of a product chain = chain of the mode sums)'],
   'Contract-based: get (loop invariant Q = partial chain => result = val(Y,i)), add tensor+tensor (block-core invariant, '
   'inductive chain lemma => wf, shape, ranks add up, val(result,i) = val(Y1,i)+val(Y2,i) for all d, shapes, ranks), '
@@ -162,7 +162,8 @@ P('C17', 'other', ['grid.ind_tt_to_qtt.gate', 'core.core_tt_to_qtt.gate', 'grid.
   'exhaustive bit maps for q*d <= 10/12, TT<->QTT conversions.', NOTE_T1 + NOTE_T3, 'deductive VCs + exhaustive enumeration', [])
 
 P('C18', 'other', ['grid.ind_to_poi.uni', 'grid.ind_to_poi.cheb', 'grid.poi_scale.uni', 'grid.poi_scale.cheb', 'grid.poi_to_ind.uni',
-                   'grid.poi_to_ind.cheb', 'grid.grid_prep_opts'], 10, [],
+                   'grid.poi_to_ind.cheb', 'grid.grid_prep_opts.lll', 'grid.grid_prep_opts.lsl', 'grid.grid_prep_opts.sln',
+                   'grid.grid_prep_opts.nnl', 'grid.grid_prep_opts.sss', 'sig.grid', 'sig.stat'], 10, [],
   'Contract-based over the reals: uniform-grid end points, range, round trip poi_to_ind(ind_to_poi(i)) = i, nearest node, clamping; '
   'grid_prep_opts raises iff lengths are inconsistent. Bounded: floating-point round trips exhaustive for n<=40/64 over many boxes, '
   'Chebyshev grid, grid_flat, cdf_getter.', NOTE_T1 + NOTE_T3, 'deductive VCs over reals + exhaustive floating-point enumeration', [])
